@@ -472,7 +472,39 @@ func prop(c Case) error {
 		if err := checkBounds(fmt.Sprintf("Extend in order %v", c.Perm), b2, want, r); err != nil {
 			return err
 		}
-		return checkPolygon(b1)
+		if err := checkPolygon(b1); err != nil {
+			return err
+		}
+		// the box is that of the coordinates as they are now: x and y of every coordinate
+		// of every geometry exchanged in place, and a new box extended by the same objects
+		swapped := false
+		for _, t := range ts {
+			if model.SwapXY(model.Leaves(t)) {
+				swapped = true
+			}
+		}
+		if swapped {
+			r2 := ref{}
+			r2.touch(dims(geom.Layout(c.L0)))
+			for i := range c.Gs {
+				r2.addGeom(c.Gs[i].SwappedXY())
+			}
+			b3 := geom.NewBounds(geom.Layout(c.L0))
+			for _, t := range ts {
+				b3.Extend(t)
+			}
+			if err := checkBounds("Extend after x and y of every geometry were exchanged in place", b3, want, r2); err != nil {
+				return err
+			}
+			for i, t := range ts {
+				r1 := ref{}
+				r1.addGeom(c.Gs[i].SwappedXY())
+				if err := checkBounds(fmt.Sprintf("Bounds() of geometry %d after its x and y were exchanged in place", i), t.Bounds(), c.Gs[i].ReportedLayout(), r1); err != nil {
+					return err
+				}
+			}
+		}
+		return nil
 	case "overlap":
 		b1, b2 := buildBox(c.B1), buildBox(c.B2)
 		ol := geom.Layout(c.OL)
